@@ -1,6 +1,6 @@
 CONFIG = {
     "id": "C08",
-    "coq_targets": ["Props/C08.v", "Model/SimCheck.v"],
+    "coq_targets": ["Props/C08.v", "Model/SimCheck.v", "Model/DispatchCheck.v"],
     "prop_files": ["Props/C08.v"],
     "gen": [],
     "components": [{
@@ -8,6 +8,15 @@ CONFIG = {
         "check": "check_case", "monitor": "monitor_c08", "model_out": "monitor_detail",
         "case_type": "case", "ops_path": None, "mismatch_is_violation": False,
         "n_quick": 900, "n_thorough": 12000, "shard": 150,
+    }, {
+        # the modifier manager's listener dispatch for the death path: HPChange, LimboWaitHeal (the walk ends with
+        # the FIRST callback answering true, the verdict is the disjunction), TargetDeath (Model/Dispatch.v, shared
+        # with C04: tools/props.d/C04.py describes the component)
+        "name": "dispatch_hit",
+        "modules": ["Model.Dispatch", "Model.DispatchSpec", "Model.DispatchCheck"],
+        "check": "check_case", "monitor": "monitor_case", "model_out": "model_out",
+        "case_type": "case", "ops_path": [3],
+        "n_quick": 300, "n_thorough": 8000, "shard": 100,
     }],
     "rule": "scripted battles on the REAL simulation.Simulation: 1-4 registered harness characters (6 kinds: speeds, SP "
             "costs, target types, a Skill.CanUse / Ult.CanUse check of their own), 1-5 harness enemies (HP 50-400, speeds incl. ties), 5-14 content scripts of engine calls "
